@@ -247,6 +247,8 @@ class Footprint:
         return len(self.r) + len(self.w) + len(self.d) != n
 
     def conflicts(self, op):
+        if op[0] == "lock" and str(op[1]).startswith("unsynchronised-list"):
+            return True  # touches state the other threads reach through their (differently named) locks
         r, w, d = resources(op)
         for x in w:
             if x in self.r or x in self.w or os.path.dirname(x) in self.d:
@@ -295,6 +297,9 @@ def run_execution(sc, root, prefix, visited, explore=True, bound=None, observer=
     env.set_root(root)
     envv = {"USE_MULTIPROCESSING": "True"} if sc.mode == "mp" else {"USE_MULTIPROCESSING": "False"}
     store = make_store(root, sc.p, envv)
+    for k, v in list(vars(store).items()):
+        if type(v) is list and "locked" in k:
+            setattr(store, k, env.SList(v))
     per = {}
     if sc.split_instances:
         # picture after fork(): every plain attribute private to the process, the _mp primitives shared
